@@ -397,9 +397,8 @@ func (j *judgeCtx) buildLimits() {}
 // decrease only from its return: the allowed bound is never too small).
 func (j *judgeCtx) maxLimit(a, b uint64) int {
 	wd := j.wd
-	def := wd.effConc(wd.cfg.Conc)
-	var defRet uint64
 	m := 0
+	var done []*Call // successful TunePool calls that had returned by a
 	for _, c := range j.r.calls {
 		if c.K != opTune {
 			continue
@@ -407,15 +406,30 @@ func (j *judgeCtx) maxLimit(a, b uint64) int {
 		if c.Ret != 0 && c.Err != "" {
 			continue // refused: no effect
 		}
-		n := wd.effConc(c.Arg)
 		if c.Ret != 0 && c.Ret <= a {
-			if c.Ret >= defRet {
-				def, defRet = n, c.Ret
-			}
+			done = append(done, c)
 			continue
 		}
-		if c.Inv <= b && n > m {
+		if n := wd.effConc(c.Arg); c.Inv <= b && n > m {
 			m = n
+		}
+	}
+	// the limit in effect at a: the configured one, or - with concurrent tuners - the value
+	// of any completed call that no later completed call (invoked after it returned) has
+	// surely overwritten
+	def := 0
+	if len(done) == 0 {
+		def = wd.effConc(wd.cfg.Conc)
+	}
+	for _, c := range done {
+		superseded := false
+		for _, c2 := range done {
+			if c2.Inv > c.Ret {
+				superseded = true
+			}
+		}
+		if n := wd.effConc(c.Arg); !superseded && n > def {
+			def = n
 		}
 	}
 	if def > m {
@@ -703,25 +717,7 @@ func (j *judgeCtx) checkBarriers() {
 			// a Resume/Restart/Bind from another goroutine that overlaps the barrier call
 			// switches dispatching back on underneath it: the property quantifies over
 			// concurrent barrier callers, not over concurrent resumers
-			// (and once such a pair has raced, what runs afterwards is its leftover: a later Stop
-			// on the then "Stopped" worker returns at once while those jobs still run)
-			resumed := false
-			for _, o := range j.lcalls {
-				if !(o.K == opResume || o.K == opRestart || o.K == opBind) || o.Inv >= c.Ret {
-					continue
-				}
-				for _, b := range j.lcalls {
-					if b == o || !(b.K == opPauseAndWait || b.K == opStop || b.K == opWaitAndStop || b.K == opPause) || b.Inv >= c.Ret {
-						continue
-					}
-					if o.Inv < b.Ret || b.Ret == 0 {
-						if b.Inv < o.Ret || o.Ret == 0 {
-							resumed = true
-						}
-					}
-				}
-			}
-			if resumed {
+			if j.racedByResumer(c) {
 				continue
 			}
 			if n := j.inflightAt(c.Ret); n > 0 {
@@ -772,6 +768,27 @@ func (j *judgeCtx) pendingAtEnd() int {
 	return n
 }
 
+// racedByResumer: a Resume/Restart/Bind from another goroutine overlapped a pausing or
+// stopping call before c returned (c itself included). Such a pair switches dispatching
+// back on underneath the barrier; what runs afterwards is its leftover (a later Stop on
+// the then "Stopped" worker returns at once while those jobs still run).
+func (j *judgeCtx) racedByResumer(c *Call) bool {
+	for _, o := range j.lcalls {
+		if !(o.K == opResume || o.K == opRestart || o.K == opBind) || o.Inv >= c.Ret {
+			continue
+		}
+		for _, b := range j.lcalls {
+			if b == o || !(b.K == opPauseAndWait || b.K == opStop || b.K == opWaitAndStop || b.K == opPause) || b.Inv >= c.Ret {
+				continue
+			}
+			if (o.Inv < b.Ret || b.Ret == 0) && (b.Inv < o.Ret || o.Ret == 0) {
+				return true
+			}
+		}
+	}
+	return false
+}
+
 // ---------------------------------------------------------------- C09 : pause / stop
 
 func (j *judgeCtx) checkPause() {
@@ -800,10 +817,15 @@ func (j *judgeCtx) checkPause() {
 			}
 		}
 		before := j.stateAt(c.Inv - 1)
-		if !clean || before == lsU || before == lsI {
-			continue
-		}
-		if c.K == opPause && before != lsR {
+		if isBarrier {
+			// a barrier call that returned nil promises a quiet worker whatever was going on
+			// before and whoever else was pausing or stopping it at the same time (another
+			// Stop, the context listener): only a resumer racing it, now or earlier in the
+			// episode, voids the promise
+			if before == lsI || j.racedByResumer(c) {
+				continue
+			}
+		} else if !clean || before != lsR {
 			continue
 		}
 		if isBarrier {
@@ -1306,6 +1328,34 @@ func (j *judgeCtx) atRestWorker(c *Call, exits int) {
 				}
 			}
 		}
+		// a worker bound to a distributed queue is subscribed to it: with this worker as the only
+		// consumer and no duplicated deliveries, every accepted submission on that queue was
+		// announced to it exactly once by the time everything is at rest
+		if wd.cfg.Consumers == 0 && wd.crashes == 0 && c.AtRest {
+			for _, q := range wd.qs {
+				if q.ad == nil || (q.cfg.Kind != qkDist && q.cfg.Kind != qkDistPrio) || q.cfg.NDup != 0 {
+					continue
+				}
+				acc, ann := 0, 0
+				for _, s := range wd.subs {
+					if s.Q == q.idx && j.accepted(s) && s.AddRet != 0 && s.AddRet <= c.Inv && !s.Pre {
+						acc++
+					}
+				}
+				for i, o := range q.ad.subOwner {
+					if o == wd && i < len(q.ad.notifyAt) {
+						for _, at := range q.ad.notifyAt[i] {
+							if at <= c.Inv {
+								ann++
+							}
+						}
+					}
+				}
+				if ann < acc && q.boundAt < c.Inv {
+					j.add("C17.c", c.Ret, "queue %d (distributed): %d submissions were accepted but only %d 'enqueued' notifications reached the bound worker at rest: it is not (or no longer) subscribed, Submitted cannot equal the accepted submissions", q.idx, acc, ann)
+				}
+			}
+		}
 		if unknown == 0 && c.Val != want && wd.crashes == 0 {
 			j.add("C17.c", c.Ret, "Submitted = %d at rest, but %d submissions were accepted (distributed kinds: notifications delivered to this worker)", c.Val, want)
 			for _, o := range j.r.calls {
@@ -1456,7 +1506,9 @@ func (j *judgeCtx) checkOutcomes() {
 		quiet := true
 		for _, c := range j.r.calls {
 			switch c.K {
-			case opCloseJob, opPurge, opCloseQueue, opStop, opWaitAndStop, opRestart, opCancelCtx, opBind:
+			// (Restart is fine: it replaces the channel, the harness attaches a reader to the new
+			// one as the application would, and a buffered offer waits for it)
+			case opCloseJob, opPurge, opCloseQueue, opStop, opWaitAndStop, opCancelCtx, opBind:
 				// (by any client task: a client still blocked in a call when the root task
 				// starts the epilogue carries on with Phase 1 set)
 				if c.Phase == 0 || c.Task != wd.rootTaskID {
